@@ -58,6 +58,15 @@ class LinScenario(engine_t.Scenario):
         fu = []
         for op in self.followups:
             fu.append((O.name(op), outcome_key(O.run(store, op, self.ctx))[0]))
+        if self.followups and getattr(self, "observe_after_followups", False):
+            # the same instance is used on after the overlapping calls: what the follow-up calls leave behind must be what
+            # they leave behind after some sequential order too (in-memory state that went stale shows here)
+            tree2 = engine_t.read_tree(root)
+            a2 = abstract(tree2, self.layout, self.pids, list(self.formats) + [self.p["ns"]])
+            left = (tuple(sorted(c[:6] for c in a2.objects)), tuple(sorted(repr(k) for k in a2.pid_refs)),
+                    tuple(sorted((c[:6], tuple(sorted(a2.cid_lines(c)))) for c in a2.cid_refs)),
+                    tuple(sorted(repr(k) for k in a2.metadata)))  # (residue is observed once, before the follow-ups)
+            fu.append(("state after follow-ups", repr(left)))
         return {"api": tuple(api), "state": state, "residue": residue, "locked": (locked, shim_held),
                 "followups": tuple(fu)}
 
